@@ -49,6 +49,7 @@ import (
 	"go/token"
 	"go/types"
 	"log"
+	"math/rand"
 	"os"
 	"reflect"
 	"runtime"
@@ -98,6 +99,7 @@ type interpreter struct {
 	concAsserts        []string
 	concObs            []string
 	lastFn             string
+	gen                *rand.Rand // self-validation: generate nondet values and record them in concVec
 }
 
 type deferred struct {
@@ -691,4 +693,3 @@ func doRecover(caller *frame) value {
 	}
 	return iface{}
 }
-
